@@ -20,6 +20,75 @@ pub fn by_name(name: &str) -> Option<Scenario> {
 }
 
 /// Every scenario of a tier (thorough ⊇ quick).
+/// The HQ-layer grid: job shapes x what a second client does meanwhile x cluster, one failing
+/// task allowed, explored to a stated depth. With `journal` the same scenarios feed the journal
+/// engine (every cut of every journal they write is restored).
+pub fn hqgrid(quick: bool, journal: bool) -> Vec<Scenario> {
+    let depth = std::env::var("HQMC_HQGRID_DEPTH")
+        .ok()
+        .and_then(|s| s.parse().ok())
+        .unwrap_or(if quick { 8usize } else { 12 });
+    let g = |t: &[(u32, &[u32])]| SubmitSpec::graph(t, RqSpec::cpus(1));
+    let jobs: Vec<(&str, Vec<Req>)> = vec![
+        ("arr", vec![sub(arr(&[0, 1], 1))]),
+        (
+            "open-ids",
+            vec![
+                Req::OpenJob { max_fails: None },
+                sub(arr(&[5, 6], 1).into_job(1)),
+                sub(arr(&[], 1).into_job(1)),
+                Req::CloseJob(1),
+            ],
+        ),
+        (
+            "open-deps",
+            vec![
+                Req::OpenJob { max_fails: None },
+                sub(g(&[(0, &[]), (1, &[0])]).into_job(1)),
+                sub(g(&[(2, &[0, 1])]).into_job(1)),
+                Req::CloseJob(1),
+            ],
+        ),
+        ("dup", vec![sub(g(&[(0, &[]), (1, &[0, 0])]))]),
+        (
+            "open-mf",
+            vec![
+                Req::OpenJob { max_fails: Some(0) },
+                sub(arr(&[0, 1], 1).into_job(1)),
+                sub(arr(&[2], 1).into_job(1)),
+            ],
+        ),
+        ("wait", vec![sub(arr(&[0, 1], 1).wait())]),
+    ];
+    let seconds: Vec<(&str, Vec<Req>)> = vec![
+        ("", vec![]),
+        ("-c", vec![Req::Cancel(1)]),
+        ("-cs", vec![Req::Cancel(1), sub(arr(&[9], 1).into_job(1))]),
+        ("-f", vec![Req::Forget(1), Req::JobInfo]),
+        ("-cl", vec![Req::CloseJob(1), sub(arr(&[8], 1).into_job(1))]),
+        ("-dcc", vec![Req::JobDetail(1), Req::Cancel(1), Req::Cancel(1)]),
+    ];
+    let mut v = Vec::new();
+    for (wn, ws) in [("1w", vec![w(1)]), ("w2", vec![w(2)])] {
+        for (jn, job) in &jobs {
+            for (sn, second) in &seconds {
+                if quick && (wn == "w2" || *sn == "-dcc" || *sn == "-cl") {
+                    continue;
+                }
+                let mut clients = vec![job.clone()];
+                if !second.is_empty() {
+                    clients.push(second.clone());
+                }
+                let name = format!("{}hq-{wn}-{jn}{sn}", if journal { "journal-" } else { "" });
+                let mut sc = Scenario::new(&name, ws.clone(), clients).budgets(0, 1, 0, 1).depth(depth).cap(300_000);
+                sc.journal = journal;
+                v.push(sc);
+            }
+        }
+    }
+    v
+}
+
 /// Thorough only: copies of scenarios that reach unusual scheduler states (retractions, redirects,
 /// pre-sent tasks, multi-node reservations) in which the automatic allocator may ask its
 /// new-worker query at any moment (the query runs the batch builder and the solver on the live
@@ -56,6 +125,7 @@ pub fn all(quick: bool) -> Vec<Scenario> {
     v.extend(wait(quick));
     v.extend(misc(quick));
     v.extend(grid(quick));
+    v.extend(hqgrid(quick, false));
     if !quick {
         v.extend(with_worker_query());
     }
@@ -79,6 +149,7 @@ pub fn family(name: &str, quick: bool) -> Vec<Scenario> {
         "journal" => journal(quick),
         "grid" => grid(quick),
         "wq" => with_worker_query(),
+        "hqgrid" => hqgrid(quick, false),
         _ => vec![],
     }
 }
@@ -957,6 +1028,8 @@ pub fn journal(quick: bool) -> Vec<Scenario> {
         .budgets(1, 0, 0, 1)
         .cap(150_000),
     ];
+    // the HQ-layer grid with the journal on
+    v.extend(hqgrid(quick, true));
     if !quick {
         v.push(
             Scenario::new(
